@@ -222,6 +222,11 @@ def _cat():
         ("dangling-extern", ".extern ghost\nmov #ghost + {V}, r0\n", lambda v: True, big),
         ("dangling-extern-unused-value", ".extern ghost\nX = ghost\n.word {V}\n", lambda v: True, big),
         ("error-in-warning-class", ".byte #{V}\n", lambda v: True, big),
+        ("parser-reported-rad50", ".word {V}\n.word ^R\n", lambda v: True, big),
+        ("parser-reported-escape", ".byte {V}\n.ascii \"a\\xZ\"\n", lambda v: True, big),
+        ("parser-reported-backslash-eof", ".word {V}\n.ascii \"ab\\", lambda v: True, big),
+        ("fp-accumulator-late", "clrf %n\n.word 1\nn = {V}\n", lambda v: not (0 <= v < 6), ("window", -3, 10)),
+        ("fp-accumulator-late-src", "ldf %n, ac1\nn = {V}\n", lambda v: not (0 <= v < 6), ("window", -3, 10)),
         ("warn-meta-typo", "word 5 + {V}\n", lambda v: not (-65536 < v + 5 < 65536), big),
     ]
 
@@ -294,7 +299,8 @@ def obligations(tier, seed):
                                   vars={"S1": "int", "S2": "int", "S3": "int"}, timeout=600, per_path=120,
                                   pre="3 diagnostics of any severity (none/warning/error/critical)"))
     obs.append(Ob(oid="exit-step", harness=P + "h_exit_step", params={}, vars={"E": "int", "SW": "int", "X": "int"}, timeout=200))
-    always = {"unused-symbol-undefined", "undefined", "duplicate", "user-error", "unknown-insn", "operand-count", "parse-critical", "bad-octal", "register-value", "missing-include", "dangling-extern", "dangling-extern-unused-value", "error-in-warning-class"}
+    always = {"unused-symbol-undefined", "undefined", "duplicate", "user-error", "unknown-insn", "operand-count", "parse-critical", "bad-octal", "register-value", "missing-include", "dangling-extern", "dangling-extern-unused-value", "error-in-warning-class", "parser-reported-rad50", "parser-reported-escape",
+              "parser-reported-backslash-eof"}
     for c in _cat():
         obs.append(Ob(oid=f"catalogue/{c[0]}", harness=P + "h_catalogue", params={"fault": c[0], "always": c[0] in always},
                       vars={"V": "int", "W": "int", "F": "int"}, timeout=900, per_path=120, note=c[1].replace("\n", " / ")))
